@@ -1,5 +1,5 @@
 (** C09 — statements of the property, kept at full strength. Those still listed in NOT_PROVED of
-    lib/props/c09.py are unproved (file_visit_at_most_once_stmt lives in Proofs/ConcFileVisit.v); the others are proved in
+    lib/props/c09.py are unproved (none at present); the others are proved in
     Proofs/ConcMemLin.v, ConcMemLinEnf.v, ConcMemIds.v, ConcMemStays.v. They were first kept
     here at full strength; the forced-schedule correspondence check and the runner's
     linearizability oracle (the same [seq_exec]) test them on every run. Each has a sanity
